@@ -240,8 +240,9 @@ CHECKS = {
  "C12": {
   "title": "allOf inheritance",
   "harnesses": [doc("VerifH_AllOf", {}, {}), doc("VerifH_AllOfDoc", {"K": 3}, {"K": 4}, full_schema_lib=True),
-                doc("VerifH_AllOfSites", {"K": 2}, {"K": 3}, full_schema_lib=True)],
-  "assumptions": ["catalog-struct level: three user types @a @b @c built directly as catalog structs (object schemas whose properties are string scalars, an allOf rule of reference items), own key sets from {}, {x}, {y|z}, {x, y|z}, every acyclic inheritance graph in which a type names only later types as bases (0, 1 or 2 bases, both orders), all 6 insertion orders",
+                doc("VerifH_AllOfSites", {"K": 2}, {"K": 3}, full_schema_lib=True),
+                doc("VerifH_AllOfThreeBases", {}, {}, full_schema_lib=True)],
+  "assumptions": ["three bases in one rule (VerifH_AllOfThreeBases): concrete bases @a {pa}, @b {pb, qb}, @c {pc}; @d names all three in one allOf rule in any of the 6 orders, at the root or in a nested object, declared at any of the 4 places among the bases; whole pipeline with the real schema library", "catalog-struct level: three user types @a @b @c built directly as catalog structs (object schemas whose properties are string scalars, an allOf rule of reference items), own key sets from {}, {x}, {y|z}, {x, y|z}, every acyclic inheritance graph in which a type names only later types as bases (0, 1 or 2 bases, both orders), all 6 insertion orders",
                   "initial UsedUserTypes of a schema = its direct allOf bases (what the AST conversion records)",
                   "a key inherited through two bases may be taken from either (the statement says 'exactly once'); same-base properties must keep the base's order and bases must appear in the order named"],
   "not_decided": ["allOf sites beyond VerifH_AllOfSites (one method with up to K schema-bearing children out of 204 any / 200 body / 404 with Headers / Request body / Request Headers / Query / Path, bases @a and @b allOf @a): several methods, macros, JSON-RPC Params / Result", "cyclic allOf (rejected by the schema library)", "more than three types"],
